@@ -272,7 +272,13 @@ public:
   void setFather(const std::shared_ptr<N>  nodeObject, const std::shared_ptr<N> fatherNodeObject, const std::shared_ptr<E> edgeObject = 0)
   {
     if (edgeObject)
-      this->getGraph()->setFather(this->getNodeGraphid(nodeObject), this->getNodeGraphid(fatherNodeObject), this->getEdgeGraphid(edgeObject));
+    {
+      EdgeGraphid edgeId = this->getEdgeGraphid(edgeObject);
+      this->getGraph()->setFather(this->getNodeGraphid(nodeObject), this->getNodeGraphid(fatherNodeObject), edgeId);
+      // when the object was carried by the branch to the former father, removing that branch has dissociated it
+      if (!this->hasEdge(edgeObject))
+        this->associateEdge(edgeObject, edgeId);
+    }
     else
       this->getGraph()->setFather(this->getNodeGraphid(nodeObject), this->getNodeGraphid(fatherNodeObject));
   }
